@@ -70,7 +70,97 @@ def run(eng, tier, seed):
                 break
         if cex:
             break
-    return {'bounded': [{'name': 'C19.dump-vs-executable-spec',
+    e2e = end_to_end(tier, seed)
+    return {'bounded': [e2e, {'name': 'C19.dump-vs-executable-spec',
                          'bound': 'two doctests; parts built from 3 of %d statements (star imports, multi-line, comments) x %d wants; %s budget'
                                   % (len(stmts), len(wants), tier),
-                         'evaluations': n, 'counterexample': cex}]}
+                         'evaluations': n, 'counterexample': cex}][::-1]}
+
+
+def end_to_end(tier, seed):
+    """Generated modules (statements of bounded/c01_equiv.py that make sense inside a function; correct wants after some groups):
+    the dump of the module's doctests compiles, has one test function per doctest, and running each function writes exactly
+    what the de-prompted doctest writes as a plain program -- nothing lost or re-ordered."""
+    import contextlib
+    import io
+    import os
+    import shutil
+    import tempfile
+    import importlib
+    from bounded import c01_equiv
+    core = importlib.import_module('xdoctest.core')
+    runner = importlib.import_module('xdoctest.runner')
+    rnd = random.Random(seed)
+    # (not usable inside a function body: top-level await, globals(); a multi-line string literal keeps its lines but they get
+    # the indentation of the function body, so its VALUE differs -- the property speaks of the lines, not of that)
+    usable = [(ls, kd) for ls, kd in c01_equiv.STATEMENTS
+              if kd != 'string' and not any('await' in ln or 'globals()' in ln or 'async def' in ln for ln in ls)]
+    final = ["print(sorted((n, repr(v)) for n, v in locals().items() if n.startswith('v') and n[1:].isdigit()))"]
+    tmp = tempfile.mkdtemp(prefix='xddump_')
+    n = 0
+    cex = None
+    n_mod = 40 if tier == 'quick' else 400
+    try:
+        for i in range(n_mod):
+            funcs = []
+            src = []
+            for fi in range(rnd.randint(1, 3)):
+                k0 = rnd.randrange(1, 50)
+                groups = []
+                for j in range(rnd.randint(1, 4)):
+                    lines, kind = rnd.choice(usable)
+                    groups.append(([ln.format(k=k0 + j) for ln in lines], kind))
+                groups.append((final, None))
+                outs = c01_equiv.reference_per_group(groups)
+                wants = []
+                pending = ''
+                for (g_lines, g_kind), o in zip(groups, outs):
+                    pending += o
+                    if g_kind != 'expr' and pending.strip() and '\n\n' not in pending and rnd.random() < 0.5:
+                        wants.append(pending)
+                        pending = ''
+                    else:
+                        wants.append(None)
+                text, plain = c01_equiv.render(groups, rnd.choice(['ps1', 'ps2']), 4, rnd, wants)
+                src.append('def func%d():\n    r"""\n%s    """\n' % (fi, text))
+                funcs.append(''.join(outs))
+            path = os.path.join(tmp, 'dump_mod_%d.py' % i)
+            with open(path, 'w') as f:
+                f.write('\n'.join(src))
+            examples = [ex for ex in core.parse_doctestables(path, style='freeform', analysis='static') if not ex.is_disabled()]
+            dump = runner._convert_to_test_module(examples)
+            n += 1
+            problem = None
+            try:
+                code = compile(dump, 'dumped', 'exec')
+            except SyntaxError as ex:
+                problem = 'the dumped text is not valid Python: %r' % (ex,)
+            if problem is None:
+                ns = {}
+                exec(code, ns)
+                tests = sorted(k for k in ns if k.startswith('test_'))
+                if len(tests) != len(funcs):
+                    problem = '%d doctests but %d test functions in the dump' % (len(funcs), len(tests))
+                else:
+                    got = []
+                    for t in tests:
+                        buf = io.StringIO()
+                        try:
+                            with contextlib.redirect_stdout(buf):
+                                ns[t]()
+                        except Exception as ex:      # noqa
+                            problem = 'running dumped %s raised %r' % (t, ex)
+                            break
+                        got.append(buf.getvalue())
+                    if problem is None and sorted(got) != sorted(funcs):
+                        problem = 'the dumped functions write %r, the doctests as plain programs %r' % (got, funcs)
+            os.remove(path)
+            if problem is not None:
+                cex = {'module_source': '\n'.join(src), 'dump': dump[:1500], 'problem': problem}
+                break
+    finally:
+        shutil.rmtree(tmp, ignore_errors=True)
+    return {'name': 'C19.dump-runs-like-the-doctests',
+            'bound': '%d generated modules of 1..3 doctests (statement shapes of bounded/c01_equiv.py, correct wants): the dump compiles, has '
+                     'one function per doctest, and each function writes what the de-prompted doctest writes' % n_mod,
+            'evaluations': n, 'counterexample': cex}
